@@ -118,8 +118,12 @@ class _Rewriter(ast.NodeTransformer):
                     or not isinstance(node.elt, ast.Name) or node.elt.id != g.target.id):
                 raise SpecError(f"filter contract on an unsupported comprehension: {self.relpath}:{q}#{k}")
             self.counts["comps"] = self.counts.get("comps", 0) + 1
+            cond = g.ifs[0]
+            if isinstance(cond, ast.UnaryOp) and isinstance(cond.op, ast.Not):
+                # `if not p(x)`: Python `not` would fork on the generic element; same value via the non-forking negation
+                cond = ast.Call(ast.Name("_pyvc_not", ast.Load()), [cond.operand], [])
             lam = ast.Lambda(ast.arguments(posonlyargs=[], args=[ast.arg(g.target.id)], kwonlyargs=[], kw_defaults=[],
-                                           defaults=[]), g.ifs[0])
+                                           defaults=[]), cond)
             return ast.copy_location(ast.Call(ast.Name("_pyvc_filtercomp", ast.Load()),
                                               [ast.Constant((self.relpath, q, k)), lam, g.iter], []), node)
         if (self.relpath, q, k) not in COMP_SPECS:
@@ -420,6 +424,7 @@ class _Loader(importlib.machinery.SourceFileLoader):
         d["_pyvc_mkset"] = comp.mkset
         d["_pyvc_listcomp"] = comp.listcomp
         d["_pyvc_filtercomp"] = comp.filtercomp
+        d["_pyvc_not"] = comp.not_
         d["_pyvc_active"] = _ctx.active
         d["_pyvc_loop_begin"] = loops.loop_begin
         d["_pyvc_for_begin"] = loops.for_begin
